@@ -158,8 +158,8 @@ struct verif_condition_variable
   template <class Rep, class Period>
   std::cv_status wait_for(std::unique_lock<verif_mutex> &lk, const std::chrono::duration<Rep, Period> &d)
   {
-    (void)d;
-    int r = detsched::cv_wait(this, lk.mutex(), true);
+    auto ns = std::chrono::duration_cast<std::chrono::nanoseconds>(d).count();
+    int r   = detsched::cv_wait(this, lk.mutex(), true, ns > 0 ? static_cast<uint64_t>(ns) : 0);
     return r == 1 ? std::cv_status::timeout : std::cv_status::no_timeout;
   }
   template <class Rep, class Period, class Pred>
